@@ -3,7 +3,7 @@ NOTES = ("Solver-based checking of the real code: see DESIGN.md (section 8 descr
          "0 held within the stated bounds (KNOWN-FINDING lines for open entries of known_findings.json) / 1 VIOLATION with a "
          "replay that reproduces on the real code / 3 inconclusive (solver unknown, budget, non-reproducing model) — never "
          "reported as success. Runs against a scratch copy (VERIF_REPO != /repo, see tools/with_patch.sh) do not touch "
-         "/verif/evidence. 29 independently seeded changes are under seeded/ (all detected by the quick tier).")
+         "/verif/evidence. 38 independently seeded changes are under seeded/ (all detected by the quick tier).")
 
 REAL = "floats encoded as exact reals (binary64 rounding outside the claim); "
 
@@ -30,7 +30,8 @@ CHECKS = {
          "per-row) are proved by z3 on the merged symbolic value of the real dominates/is_inside code for every cone of the "
          "set and for a fully symbolic 2x2 (thorough: 3x2, 3x3) cone matrix; the θ-cone's angle semantics is proved for all "
          "θ in (0,180) at once on the symbolic output of the real get_2d_w (half-angle parametrisation), 3-D and ice-cream "
-         "cones on the real constructors' output in exact arithmetic.",
+         "cones on the real constructors' output in exact arithmetic. Integer-dtype cone matrices are included (a float→int "
+         "cast met on the way is modelled as truncation toward zero).",
     note=REAL + "trusted trig identities tan(π/4∓h)=(c∓s)/(c±s), tan(π/2−θ)=cosθ/sinθ; ice-cream half-angle on a grid "
          "(symbolic θ did not terminate in nlsat); mpmath enclosures with 1e-9 band at concrete angles",
     technique="symbolic execution of the real numpy code on z3 reals + SMT (QF_LRA/QF_NRA)",
@@ -74,7 +75,8 @@ CHECKS = {
     text="Bounded symbolic model checking of the real get_smallmij/get_delta/utils.is_covered/ε-F1 code on symbolic value "
          "vectors: m(i,j) and the gaps are proved equal to the definition (closed form with each facet's own α_n, and the "
          "semantic statement over every unit cone direction), ε-coverage to its ∃-definition through the cvxpy stub, and the "
-         "ε-F1 laws (range, =1 on the true Pareto set, permutation invariance, monotone in ε) as relational obligations.",
+         "ε-F1 laws (range, =1 on the true Pareto set, permutation invariance, monotone in ε) as relational obligations; the "
+         "counting loops get_uncovered_size / get_uncovered_set are proved to report exactly the points no prediction ε-covers.",
     note=REAL + "N<=3 vectors, m=2 (3 for m(i,j)); α taken from VOPy's own get_alpha_vec (its optimality is C17) with "
          "relative tolerance 1e-6; hypervolume clause not encodable (botorch tensors)",
     technique="symbolic execution of the real numpy code on z3 reals + SMT (QF_NRA) per path",
@@ -172,7 +174,8 @@ CHECKS = {
          "of the arithmetic means; accounting and termination on every path. Clause A (formula level): the symbolic term the "
          "real constructor computes for the default L (symbolic noise variance and ε; θ, δ, K on a grid) is proved (NRA) to "
          "dominate the necessary sample count of the two-design instance with gap just above ε; refutations are confirmed by "
-         "the closed-form failure probability of that instance on the real class.",
+         "the closed-form failure probability of that instance on the real class, and to reach the paper's sufficient count "
+         "4(cσβ/ε)²ln(·) with β from the θ-cone's closed form (one-sided).",
     note=REAL + "clause A is a necessary condition (two-design instance, Gaussian noise); sufficiency for arbitrary design sets "
          "is the paper's lemma; K=3, L<=3 for clause B",
     technique="symbolic execution of the real numpy code on z3 reals + SMT (QF_LRA / NRA with an integer ceil)",
@@ -183,7 +186,8 @@ CHECKS = {
          "compute_beta returns is extracted by symbolic execution (round, δ, design count, noise variance symbolic; ln opaque with "
          "its argument recorded), pushed through the real design_space.update / region update, and the resulting standardised "
          "half-width (rectangles) or squared radius (ellipsoids) is proved by z3 (NRA) large enough that a standard Gaussian / "
-         "χ² tail bound times the number of (design, objective) events fits under 6δ/(π²τ²), whose sum over τ is δ. A negative "
+         "χ² tail bound times the number of (design, objective) events fits under 6δ/(π²τ²), whose sum over τ is δ. The premise of the bandit schedules (a region "
+         "rebuilt in round t averages t samples) is a run-level obligation on the real PaVeBa / Auer steps. A negative "
          "control (contraction 64) must be refuted; refutations are confirmed numerically with exact tails over the horizon.",
     note="trusted: Gaussianity of sample means / GP posteriors, tail bounds, Σ τ⁻² = π²/6, exp/ln algebra and Taylor lower "
          "bounds; m = 2..3 (quick) / 2..6 (thorough; PaVeBaPartialGP ellipsoid 2..4); VOGP_AD's β and empirical-β Auer outside; " + REAL,
